@@ -208,44 +208,6 @@ aws_stream_cat(struct aws_stream * S, const struct aws_stream * A)
 	}
 }
 
-/* number of characters of the decimal numeral of v */
-static inline size_t
-aws_declen(int v)
-{
-	long long a = (v < 0) ? -(long long)v : (long long)v;
-	size_t n = (v < 0) ? 2 : 1;
-
-	if (a >= 10LL) n++;
-	if (a >= 100LL) n++;
-	if (a >= 1000LL) n++;
-	if (a >= 10000LL) n++;
-	if (a >= 100000LL) n++;
-	if (a >= 1000000LL) n++;
-	if (a >= 10000000LL) n++;
-	if (a >= 100000000LL) n++;
-	if (a >= 1000000000LL) n++;
-	return (n);
-}
-
-/* rendered length */
-static inline size_t
-aws_stream_len(const struct aws_stream * S)
-{
-	size_t i, L = 0;
-
-	for (i = 0; i < AWS_TKMAX; i++) {
-		if (i >= S->n)
-			break;
-		if (S->t[i].kind == AWS_TK_REF)
-			L += g_aws_in[S->t[i].id].len;
-		else if (S->t[i].kind == AWS_TK_INT)
-			L += aws_declen(S->t[i].ival);
-		else
-			L += S->t[i].len;
-	}
-	return (L);
-}
-
 /* equality of normal forms */
 static inline int
 aws_stream_eq(const struct aws_stream * A, const struct aws_stream * B)
